@@ -80,9 +80,10 @@ func ByContextualEx(fallbackSort NameSorter) NameSorter {
 			v1, ok1 := set[lowerB]
 			if !ok0 || !ok1 {
 				fallback = true
-			} else {
+			} else if v0 != v1 {
 				return v0 < v1
 			}
+			// Same position (two spellings of one day/month): order by name below
 		}
 
 		// Fallback
